@@ -202,6 +202,14 @@ class RecDtype:
     def __bool__(self):
         return True
 
+    @property
+    def base(self):
+        return self
+
+    @property
+    def fields(self):
+        return {n: (d, None) for n, d in self.fields_}
+
     def field(self, name):
         for n, d in self.fields_:
             if n == name:
@@ -471,7 +479,8 @@ def _prod(shape):
 
 class _NdMeta(type):
     def __instancecheck__(cls, x):
-        return type.__instancecheck__(cls, x) or (cls is ndarray and isinstance(x, _rnp.ndarray))
+        # a 0-d structured value (np.asarray(record): origin, collar) is an ndarray for the code under analysis
+        return type.__instancecheck__(cls, x) or (cls is ndarray and (isinstance(x, _rnp.ndarray) or type(x).__name__ == "RecScalar"))
 
 
 def isnd(x):
